@@ -40,7 +40,7 @@ func (lex *Lexer) Lex() *token.Token {
                 lex.newLines.Append(lex.p+1)
             }
 
-            if lex.data[lex.p] == '\r' && lex.data[lex.p+1] != '\n' {
+            if lex.data[lex.p] == '\r' && (lex.p+1 == len(lex.data) || lex.data[lex.p+1] != '\n') {
                 lex.newLines.Append(lex.p+1)
             }
         }
